@@ -52,6 +52,9 @@ def timestamp(b: shapes.Builder, path, whole_seconds=False, symbolic=True):
     return DT._make(secs, micro, TZ(0), check=None)
 
 
+MANY_HEADERS = 64
+
+
 def build_new_batch(b: shapes.Builder, n_records, *, regions=REGIONS[:2], max_headers=2, whole_seconds=False, symbolic_ts=True):
     from kio.records.schema import NewRecordBatch, Record, RecordHeader
 
@@ -64,9 +67,13 @@ def build_new_batch(b: shapes.Builder, n_records, *, regions=REGIONS[:2], max_he
         else:
             d = b._int(p + ".offset_delta", -(2**31), 2**31 - 1)
             off = base + d
-        nh_alts = list(range(max_headers + 1))
+        nh_alts = list(range(max_headers + 1)) + ([MANY_HEADERS] if j == 0 else [])
         nh = nh_alts[b.alt(p + "#headers", len(nh_alts))]
-        headers = tuple(RecordHeader(key=payload(b, f"{p}.h{i}.key", regions), value=payload(b, f"{p}.h{i}.value", regions)) for i in range(nh))
+        if nh == MANY_HEADERS:
+            # the header count crosses the one-byte zig-zag varint boundary (63 | 64); the headers themselves are tiny and concrete
+            headers = tuple(RecordHeader(key=b"k", value=None if i % 2 else b"v") for i in range(nh))
+        else:
+            headers = tuple(RecordHeader(key=payload(b, f"{p}.h{i}.key", regions), value=payload(b, f"{p}.h{i}.value", regions)) for i in range(nh))
         recs.append(Record(attributes=b._int(p + ".attributes", -128, 127), timestamp=timestamp(b, p + ".ts", whole_seconds, symbolic_ts), offset=off,
                            key=payload(b, p + ".key", regions), value=payload(b, p + ".value", regions), headers=headers))
     return NewRecordBatch(producer_id=b._int("producer_id", -(2**63), 2**63 - 1), producer_epoch=b._int("producer_epoch", -(2**15), 2**15 - 1),
